@@ -298,6 +298,292 @@ def h_withdraw(lifetime: int, j0: int, j1: int, j2: int, lat: int, cancel_at: in
     return _c13.keepalive_impl(lifetime, j0, j1, j2, 0, lat, cancel_at)
 
 
+# --------------------------------------------------------------------------------------------------- H2: the whole operator
+def run_whole(trigger, at, su_dur, su_fails, cu_dur, handler_dur, peering=False, stream_fault=None):
+    """The REAL running.spawn_tasks + running.run_tasks (what kopf.operator()/kopf.run() execute), i.e. all root tasks wired by
+    kopf itself: stop-flag checker, startup/cleanup, daemon killer, credentials retriever, poster, admission managers, resource
+    and namespace observers, orchestrator -> watchers -> workers -> process_resource_event -> patching, over the real client
+    stack (api.request, auth, Vault, errors, watching) down to a fake aiohttp session that logs every request."""
+    import json as _json
+    import aiohttp
+    from vkopf.fakehttp import FakeSession, FakeResponse
+    from vkopf.world import FakeServer
+    from vkopf import shimdt
+    from kopf._cogs.clients import errors as _errors
+    from kopf._cogs.structs import references as _refs
+    from kopf._core.actions import progression
+    from kopf._core.engines import peering as peering_mod
+    from kopf._core.reactor import inventory
+    loop = SymLoop()
+    log = []            # (what, t)
+    requests = []       # (t, method, path)
+    registry = registries.OperatorRegistry()
+    settings = configuration.OperatorSettings()
+    settings.peering.standalone = not peering
+    settings.posting.enabled = False
+    settings.watching.server_timeout = None
+    settings.watching.client_timeout = None
+    settings.networking.error_backoffs = [1]
+    obj = base_body()
+    server = FakeServer(obj, clock=lambda: loop._now)
+    changed = {'ev': None}
+    peer_obj = {'apiVersion': 'kopf.dev/v1', 'kind': 'ClusterKopfPeering', 'metadata': {'name': 'default', 'resourceVersion': '1'}, 'status': {}}
+
+    def rsrc(name, kind, namespaced):
+        return {'name': name, 'singularName': kind.lower(), 'kind': kind, 'namespaced': namespaced, 'shortNames': [], 'categories': [],
+                'verbs': ['get', 'list', 'watch', 'patch', 'create', 'delete']}
+
+    from vkopf.props.c07 import _Log
+    server.log = _Log(lambda: loop._now)
+    server.log.new = asyncio.Event()
+
+    async def watch_stream(kind, since=0):
+        # an ordered reader of the server's change log (every write, also the operator's own, comes back as an event);
+        # the connection stays open; a scripted fault ends or breaks it
+        if kind != 'obj':
+            await asyncio.Event().wait()
+        i = 0
+        while True:
+            while i >= len(server.log):
+                server.log.new.clear()
+                await server.log.new.wait()
+            rv, snap = server.log[i]
+            i += 1
+            if rv > since:
+                yield (_json.dumps({'type': 'MODIFIED', 'object': snap}) + '\n').encode()
+
+    async def serve(sess, method, url, payload, headers, timeout):
+        path = url[len('http://fake'):]
+        requests.append((loop.time(), method.upper(), path))
+        m = method.upper()
+        base = path.split('?')[0]
+        if m == 'GET':
+            if base == '/version':
+                return FakeResponse(200, body={'major': '1', 'minor': '30'})
+            if base == '/api':
+                return FakeResponse(200, body={'versions': ['v1']})
+            if base == '/apis':
+                return FakeResponse(200, body={'groups': [{'name': GROUP_, 'preferredVersion': {'version': 'v1'}, 'versions': [{'version': 'v1'}]}]})
+            if base == '/api/v1':
+                return FakeResponse(200, body={'resources': [rsrc('namespaces', 'Namespace', False), rsrc('events', 'Event', True)]})
+            if base == f'/apis/{GROUP_}/v1':
+                rs = [rsrc(PLURAL, 'KopfExample', True)]
+                if peering:
+                    rs.append(rsrc('clusterkopfpeerings', 'ClusterKopfPeering', False))
+                return FakeResponse(200, body={'resources': rs})
+            if base == f'/apis/{GROUP_}/v1/{PLURAL}':
+                if 'watch=true' in path:
+                    if stream_fault == 'http500' :
+                        return FakeResponse(500, body={'kind': 'Status', 'message': 'boom', 'code': 500})
+                    since = int(path.split('resourceVersion=')[1].split('&')[0]) if 'resourceVersion=' in path else 0
+                    return FakeResponse(200, stream=watch_stream('obj', since))
+                return FakeResponse(200, body={'metadata': {'resourceVersion': str(server.rv)}, 'items': [server.obj] if server.obj else []})
+            if base == f'/apis/{GROUP_}/v1/clusterkopfpeerings' or base.startswith(f'/apis/{GROUP_}/v1/clusterkopfpeerings/'):
+                if 'watch=true' in path:
+                    return FakeResponse(200, stream=watch_stream('peering'))
+                if base.endswith('/default'):
+                    return FakeResponse(200, body=peer_obj)
+                return FakeResponse(200, body={'metadata': {'resourceVersion': '1'}, 'items': [peer_obj]})
+            return FakeResponse(404, body={'kind': 'Status', 'message': 'not found', 'code': 404})
+        if m == 'PATCH':
+            if 'clusterkopfpeerings' in base:
+                from vkopf.world import rfc7386
+                new = rfc7386(peer_obj, payload)
+                peer_obj.clear()
+                peer_obj.update(new)
+                return FakeResponse(200, body=peer_obj)
+            try:
+                result = await server.patch(base, headers=headers, payload=payload)
+            except _errors.APIError as e:
+                return FakeResponse(e.status, body={'kind': 'Status', 'message': 'x', 'code': e.status})
+            return FakeResponse(200, body=result)
+        return FakeResponse(200, body={})
+
+    @kopf.on.login(registry=registry)
+    async def login(**_):
+        log.append(('login', loop.time()))
+        return credentials.AiohttpSession(server='http://fake', aiohttp_session=FakeSession(serve))
+
+    @kopf.on.startup(registry=registry)
+    async def su(**_):
+        log.append(('startup_begin', loop.time()))
+        if su_dur > 0:
+            await asyncio.sleep(su_dur)
+        if su_fails:
+            raise kopf.PermanentError('startup failed')
+        log.append(('startup_end', loop.time()))
+
+    @kopf.on.cleanup(registry=registry)
+    async def cu(**_):
+        log.append(('cleanup_begin', loop.time()))
+        if cu_dur > 0:
+            await asyncio.sleep(cu_dur)
+        log.append(('cleanup_end', loop.time()))
+
+    @kopf.on.create(PLURAL, id='c', registry=registry)
+    async def c(**_):
+        log.append(('handler_begin', loop.time()))
+        if handler_dur > 0:
+            await asyncio.sleep(handler_dur)
+        if trigger == 'handler_crashes_worker':
+            raise SystemError('simulated framework fault')       # not an Exception the handler machinery absorbs? (it is; see below)
+        log.append(('handler_end', loop.time()))
+
+    @kopf.daemon(PLURAL, id='dm', registry=registry)
+    async def dm(stopped, **_):
+        log.append(('daemon_enter', loop.time()))
+        await stopped.wait()
+        log.append(('daemon_exit', loop.time()))
+
+    stop_flag = asyncio.Event()
+    ready_flag = asyncio.Event()
+    outcome = {}
+
+    async def main():
+        import threading
+        orig_dt, orig_iso = progression.datetime, progression.iso8601
+        orig_choice = credentials.random
+        orig_main_thread = threading.main_thread
+        credentials.random = type('R', (), {'choice': staticmethod(lambda seq: seq[0])})
+        threading.main_thread = lambda: None      # OS signal handlers are not installed (a virtual loop has none): the "not main thread" branch
+        try:
+            existing = asyncio.all_tasks()
+            tasks = await running.spawn_tasks(registry=registry, settings=settings, memories=inventory.ResourceMemories(),
+                                              clusterwide=True, stop_flag=stop_flag, ready_flag=ready_flag,
+                                              identity=peering_mod.Identity('me'), priority=100 if peering else None,
+                                              peering_name='default' if peering else None)
+            op = asyncio.create_task(running.run_tasks(tasks, ignored=existing | {asyncio.current_task()}))
+            watch_ready = asyncio.create_task(ready_flag.wait())
+
+            def fire():
+                log.append(('trigger', loop.time()))
+                if trigger == 'stop_flag':
+                    stop_flag.set()
+                elif trigger == 'cancel':
+                    op.cancel()
+            if trigger in ('stop_flag', 'cancel'):
+                loop.call_later(at, fire)
+            try:
+                await op
+                outcome['result'] = 'returned'
+            except asyncio.CancelledError:
+                outcome['result'] = 'cancelled'
+            except BaseException as e:  # noqa
+                if isinstance(e, (Deadlock, Diverged, Livelock)) or type(e).__module__.startswith('crosshair'):
+                    raise
+                outcome['result'] = 'raised:' + type(e).__name__
+            outcome['t_return'] = loop.time()
+            outcome['ready'] = ready_flag.is_set()
+            watch_ready.cancel()
+            outcome['left'] = len([t for t in asyncio.all_tasks() if t is not asyncio.current_task() and t is not watch_ready and not t.done()])
+            await cancel_all_others()
+        finally:
+            credentials.random = orig_choice
+            threading.main_thread = orig_main_thread
+    with shimdt.installed(progression):
+        loop.run(main(), max_steps=40_000)
+    return log, requests, outcome, server, peer_obj
+
+
+GROUP_ = 'kopf.dev'
+WHOLE_TRIGGERS = ['stop_flag', 'cancel', 'none']
+
+
+def h_operator(trigger: int, at: int, su_dur: int, su_fails: bool, cu_dur: int, handler_dur: int) -> bool:
+    """
+    pre: 0 <= trigger <= 2 and at >= 0 and su_dur >= 0 and cu_dur >= 0 and handler_dur >= 0
+    post: _ == True
+    """
+    vkopf.begin_path()
+    c = vkopf.cell()
+    trigger, su_fails = vkopf.pin('trigger', trigger), vkopf.pin('su_fails', su_fails)
+    trig = WHOLE_TRIGGERS[trigger]
+    fault = c.get('stream_fault')
+    if c.get('coarse', True):
+        cu_dur, handler_dur = 1, vkopf.choose(handler_dur, [0, 3])
+    if trig == 'none' and not su_fails and fault is None:
+        return True                 # nothing would ever stop this operator
+    # the phase in which the stop arrives is a cell; the instants inside the phase stay symbolic
+    phase = c.get('phase')
+    if phase == 'startup':
+        if at > su_dur:
+            return True
+    elif phase == 'busy':           # while the object's creation handler (3 s) runs
+        if at > 3:
+            return True
+        su_dur = 2
+        at, handler_dur = su_dur + at, 3
+    elif phase == 'steady':         # after the first handling cycle is over
+        su_dur = 2                  # (the startup duration is symbolic in the 'startup' cells)
+        # the stop instant comes from a small grid here: an unbounded one is compared with every timer of the running operator
+        # (worker idle timeout, stop polling, hung-task grace) and did not exhaust within 15 CPU-minutes
+        at = su_dur + 4 + vkopf.choose(at, [0, 1, 3, 10])
+    failing = su_fails and (trig == 'none' or at > su_dur)      # a stop that arrives first cancels the startup before it fails
+    if su_fails and trig != 'none' and at == su_dur:
+        return True                 # a tie between the failure and the stop: either outcome is legitimate
+    try:
+        log, requests, outcome, server, peer = run_whole(trig, at, su_dur, su_fails, cu_dur, handler_dur, peering=c.get('peering', False),
+                                                         stream_fault=fault)
+    except (Deadlock, Diverged, Livelock):
+        return vkopf.verdict(False)
+    ok = True
+    t = {k: [tt for kk, tt in log if kk == k] for k in ('startup_begin', 'startup_end', 'cleanup_begin', 'cleanup_end', 'login', 'trigger',
+                                                        'handler_begin', 'handler_end', 'daemon_enter', 'daemon_exit')}
+    started = bool(t['startup_end'])
+    stopped_during_startup = trig in ('stop_flag', 'cancel') and (failing or at < su_dur)
+    # 1. no API activity (and no login) before every startup handler has succeeded; none at all if startup failed or was interrupted
+    if requests and not started:
+        ok = False
+    if started and requests and requests[0][0] < t['startup_end'][0]:
+        ok = False
+    if t['login'] and (not started or t['login'][0] < t['startup_end'][0]):
+        ok = False
+    if su_fails and (requests or outcome['ready']):
+        ok = False
+    if failing:
+        vkopf.witness('startup_failed')
+        if not outcome['result'].startswith('raised'):
+            ok = False
+    # 2. the ready flag only after startup; a stop/cancellation that arrives during startup leaves no trace of readiness or API use
+    if outcome['ready'] and not started:
+        ok = False
+    if stopped_during_startup and not failing:
+        vkopf.witness('stopped_during_startup')
+        if requests or t['login'] or t['handler_begin'] or outcome['ready']:
+            ok = False
+    # 3. cleanup handlers run after everything else has stopped: no request, no handler activity after cleanup began
+    if t['cleanup_begin']:
+        cb = t['cleanup_begin'][0]
+        vkopf.witness('cleanup')
+        if any(rt > cb for rt, _, _ in requests):
+            ok = False
+        if t['daemon_enter'] and (not t['daemon_exit'] or t['daemon_exit'][0] > cb):
+            ok = False
+        if t['handler_end'] and t['handler_end'][0] > cb:
+            ok = False
+    elif started:
+        ok = False                  # started operators always clean up
+    # 4. the run call ends: re-raises the failure / returns on a stop flag / is cancelled -- within the bounded grace periods
+    if trig == 'stop_flag' and not failing and fault is None and outcome['result'] != 'returned':
+        ok = False
+    if trig == 'cancel' and not failing and fault is None and outcome['result'] != 'cancelled':
+        ok = False
+    if fault is not None and started and trig == 'none' and not outcome['result'].startswith('raised'):
+        ok = False
+    if outcome['left']:
+        ok = False                  # nothing lingers half-alive
+    if trig in ('stop_flag', 'cancel') and not failing:
+        bound = at + cu_dur + 5 + 10 + 2 * 1 + (su_dur if trig == 'stop_flag' and at < su_dur else 0) + 3
+        if outcome['t_return'] > bound:
+            ok = False
+    # 5. in steady state the operator actually operated (vacuity): the object was listed, handled, and its daemon ran
+    if started and not stopped_during_startup and trig in ('stop_flag', 'cancel') and fault is None and at > su_dur + 3:
+        vkopf.witness('steady')
+        if not t['handler_begin'] or not t['daemon_enter']:
+            ok = False
+    return vkopf.verdict(ok)
+
+
 def obligations():
     B = [False, True]
     obs = []
@@ -316,6 +602,16 @@ def obligations():
                   trigger=[0, 1, 2, 3, 4], su_fails=B, with_daemon=B, hung=B, su2_retries=B, staged=[False])
     obs += split(Ob('h_lifecycle', {'coarse': True}, tiers=('thorough',), timeout=900, path_timeout=300),
                  trigger=[0, 1, 2, 3], su_fails=[False], with_daemon=[True], hung=B, su2_retries=[False], staged=[True])
+    # H2: the whole operator (real spawn_tasks + run_tasks over the fake HTTP session)
+    for (tr, sf, phase) in ((0, False, 'startup'), (0, False, 'steady'), (1, False, 'busy'), (2, True, None), (0, True, None)):
+        obs.append(Ob('h_operator', {'phase': phase, 'pin': {'trigger': tr, 'su_fails': sf}}, tiers=('quick', 'thorough'), timeout=900, path_timeout=300))
+    for (tr, sf, phase) in ((1, False, 'startup'), (1, False, 'steady'), (0, False, 'busy'), (1, True, None)):
+        obs.append(Ob('h_operator', {'phase': phase, 'pin': {'trigger': tr, 'su_fails': sf}}, tiers=('thorough',), timeout=900, path_timeout=300))
+    obs.append(Ob('h_operator', {}, tiers=('quick', 'thorough'), timeout=600, path_timeout=300,
+                  twins=['startup_failed', 'stopped_during_startup', 'cleanup', 'steady'], main=False))
+    # an essential task fails: the watch stream of the served resource answers 500 until the retries are exhausted
+    obs.append(Ob('h_operator', {'stream_fault': 'http500', 'pin': {'trigger': 2, 'su_fails': False}}, tiers=('quick', 'thorough'), timeout=900, path_timeout=300))
+    obs.append(Ob('h_operator', {'peering': True, 'pin': {'trigger': 0, 'su_fails': False}}, tiers=('thorough',), timeout=900, path_timeout=300))
     obs.append(Ob('h_withdraw', {'early': True}, timeout=900, twins=['withdrawn_during_first_request']))
     # (the non-coarse cells -- all instants symbolic at once -- did not exhaust within an hour each: not claimed)
     return obs
